@@ -293,6 +293,13 @@ func (c *VirtualTable) BestIndex(input []IndexInput, order []OrderInput) (*Index
 		desc = &a
 	}
 	if *desc {
+		// Walking the tree backwards is not reliable (it fails on an empty
+		// tree and skips subtrees of multi-level trees), so scan forwards
+		// and leave the descending sort to SQLite.
+		out.AlreadyOrdered = false
+		*desc = false
+	}
+	if *desc {
 		out.IdxStr = "desc " + out.IdxStr
 	} else {
 		out.IdxStr = "asc  " + out.IdxStr
